@@ -96,6 +96,7 @@ def run(ctx):
             ctx.case(('reblock', n2))
             if stored_hash(adv) != sha(a2):
                 ctx.fail('re-blocked file does not carry the source hash', {'n': n2})
+    reused_converters(ctx, gen.rng_for(ctx.seed, 'c20-reused'))
     # single-sample perturbations
     n = (3, 5, 6)
     base = gen.cube(rng, n)
@@ -115,6 +116,54 @@ def run(ctx):
         ctx.stats['perturbations'] += 1
         if h == h0 or h != sha(a):
             ctx.fail(f'perturbing sample {(i, x, z)} by one ulp: hash {"unchanged" if h == h0 else "wrong"}', {'n': n, 'idx': (i, x, z)})
+
+
+def reused_converters(ctx, rng):
+    """one converter object run twice, the source changed in one sample in between (the array it refers to modified in
+    place; the SEG-Y file rewritten under the same name): every written file carries the SHA-1 of the samples it holds"""
+    from seismic_zfp.conversion import NumpyConverter, SegyConverter
+    for k in range(ctx.n(4, 40)):
+        n = (int(rng.integers(3, 9)), int(rng.integers(3, 9)), int(rng.integers(4, 12)))
+        arr = gen.cube(rng, n)
+        out1, out2 = ctx.path('rc1.sgz'), ctx.path('rc2.sgz')
+        at = tuple(int(rng.integers(v)) for v in n)
+        desc = {'n': n, 'perturbed_sample': at, 'route': ['numpy', 'segy', 'segy-ri', '2d'][k % 4]}
+        ctx.case(('reused-converter', desc['route'], n, at), sample=desc)
+        ctx.stats['reused_converters'] += 1
+        try:
+            if k % 4 == 0:
+                with NumpyConverter(arr) as c:
+                    env.quiet(c.run, out1, bits_per_voxel=4)
+                    w1 = sha(arr)
+                    arr[at] = np.nextafter(arr[at], np.float32(np.inf))
+                    env.quiet(c.run, out2, bits_per_voxel=[4, 8][k % 8 // 4])
+                    w2 = sha(arr)
+            else:
+                two_d = k % 4 == 3
+                a = arr[:1] if two_d else arr
+                sgy = ctx.path('rc.sgy')
+                mksegy.make_segy(sgy, a, fmt=5, two_d=two_d, dt_us=2000)
+                with SegyConverter(sgy) as c:
+                    env.quiet(c.run, out1, bits_per_voxel=4, reduce_iops=(k % 4 == 2))
+                    w1 = sha(conv.segy_cube(sgy))
+                    a2 = a.copy()
+                    a2[(0,) + at[1:] if two_d else at] = np.nextafter(a2[(0,) + at[1:] if two_d else at], np.float32(np.inf))
+                    off = 3600 + ((0 if two_d else at[0]) * n[1] + at[1]) * (240 + 4 * n[2]) + 240 + 4 * at[2]
+                    with open(sgy, 'r+b') as f:      # one sample rewritten in place (big-endian IEEE)
+                        f.seek(off)
+                        f.write(np.asarray(a2[(0,) + at[1:] if two_d else at], dtype='>f4').tobytes())
+                    env.quiet(c.run, out2, bits_per_voxel=4, reduce_iops=(k % 4 == 2))
+                    w2 = sha(conv.segy_cube(sgy))
+        except Exception as e:  # noqa
+            ctx.fail(f'second run of a converter object failed: {type(e).__name__}: {str(e)[:120]}', desc)
+            continue
+        if w1 == w2:
+            continue
+        if stored_hash(out1) != w1:
+            ctx.fail('first file of a reused converter: stored hash is not the SHA-1 of the source samples', desc)
+        if stored_hash(out2) != w2:
+            ctx.fail('second file of a reused converter (one source sample changed in between): stored hash is not the SHA-1 of '
+                     'the samples it was written from' + (' -- it is the first run\'s hash' if stored_hash(out2) == w1 else ''), desc)
 
 
 def replay(ctx, rp):
